@@ -2,6 +2,7 @@
 from pyvc.dsl import sorts
 
 sorts(
+    pointers="set", child_pointers="set",
     _types="list", dict_keys_fields="set", dict_keys_regex="list",
     argparser="obj:ArgumentParser",
     model="obj:ModelMeta", blacklist_words="set", convert_unicode="bool", post_init_converters="bool", no_meta="bool",
